@@ -1,9 +1,12 @@
 ---- MODULE LexerContents ----
 \* Export of the hostile contents (the quantifier domain of QuoteSafety) for the C07 binding.
 EXTENDS Lexer, Json, SequencesExt
-CONSTANTS NQ, OutFile
+CONSTANTS NQ, QQ, OutFile
 Hostile == {"sq", "dq", "bt", "sc", "da", "nl", "bs", "ha", "sl", "st"}
-Contents == UNION { [1..k -> Hostile] : k \in 0..NQ }
+\* every content up to NQ, and longer ones (up to QQ) made of quote characters and backslashes only: the inputs of the "is it already
+\* quoted?" decisions (sqlx.IsQuoted) are strings that begin and end with a quote
+Quotes == {"sq", "dq", "bt", "bs"}
+Contents == UNION { [1..k -> Hostile] : k \in 0..NQ } \cup UNION { [1..k -> Quotes] : k \in 0..QQ }
 ASSUME PrintT(<<"CONTENTS", Cardinality(Contents)>>)
 ASSUME ndJsonSerialize(OutFile, SetToSeq(Contents))
 ====
